@@ -8,7 +8,7 @@
    those of get_template (C05's subject) and enter the statements only through chans_of.  WF d = the
    arrays of d have consistent shapes and every template id is below n_templates. *)
 From Coq Require Import ZArith List Lia Bool Arith Sorted.
-From PV Require Import Base.NpSearch C08.Model C08.Spec C08.Proofs C08.Proofs2 C08.Proofs3 C08.Proofs4 C08.Proofs5 C08.Proofs6 C08.Proofs7.
+From PV Require Import Base.NpSearch C08.Model C08.Spec C08.Proofs C08.Proofs2 C08.Proofs3 C08.Proofs4 C08.Proofs5 C08.Proofs6 C08.Proofs7 C08.Proofs8.
 Import ListNotations.
 Open Scope Z_scope.
 
@@ -94,12 +94,32 @@ Proof. exact cluster_empty. Qed.
 Print Assumptions C08_empty.
 
 (* When cluster and template assignments coincide: no merge map, the cluster waveforms are the template
-   waveforms (one per template, used or not) and there are as many clusters as templates. *)
+   waveforms (one per template, used or not), there are as many clusters as templates, and nan_idx is
+   np.setdiff1d(arange(n_clusters), spike_clusters) (the identity branch as repaired on fix-c14b; it was []). *)
 Theorem C08_identity : forall (d : dset),
   d_sc d = d_st d -> d_sc d <> [] ->
-  load d = Some (mkld false [] [] (map (single_rows d) (seq 0 (length (d_tmpl d)))) (n_templates d)).
+  load d = Some (mkld false [] (setdiff_arange (length (d_tmpl d)) (d_st d))
+                      (map (single_rows d) (seq 0 (length (d_tmpl d)))) (n_templates d)).
 Proof. exact load_identity. Qed.
 Print Assumptions C08_identity.
+
+(* "Ids without spikes are reported as empty", in BOTH branches of _load_data: whatever was loaded, nan_idx is
+   strictly increasing and  c in nan_idx  <->  0 <= c < n_clusters and no spike has cluster c.
+   (Curated: n_clusters = max + 1, this is the nan part of C08_merge_map_loaded; identity: n_clusters = n_templates.) *)
+Theorem C08_nan_idx_both_branches : forall (d : dset) (m : loaded),
+  load d = Some m ->
+  StronglySorted Z.lt (l_nan m) /\ forall c, In c (l_nan m) <-> (0 <= c < l_ncl m /\ ~ In c (d_sc d)).
+Proof. exact load_nan_both. Qed.
+Print Assumptions C08_nan_idx_both_branches.
+
+(* ... read on the templates when clusters = templates: exactly the template ids that no spike has (their cluster
+   waveform is still the template's, C08_identity; in the curated branch an empty id carries zeros, C08_empty) *)
+Theorem C08_nan_idx_identity : forall (d : dset) (m : loaded),
+  d_sc d = d_st d -> load d = Some m ->
+  l_curated m = false /\ l_ncl m = n_templates d /\
+  forall c, In c (l_nan m) <-> (0 <= c < n_templates d /\ ~ In c (d_st d)).
+Proof. exact load_nan_identity. Qed.
+Print Assumptions C08_nan_idx_identity.
 
 (* Totality.  Templates_OK d unw = get_template succeeds on every template id (channel selection is C05's
    subject; it fails only on malformed geometry).  Then the mean waveform of every cluster that has a spike
@@ -146,10 +166,12 @@ Print Assumptions C08_tables.
 
 (* clauses 21 and 22 of the correspondence, evaluated on the OBSERVED merge_map.items() and nan_idx, imply
    the provenance statement for the observation: keys exactly 0..max, every value strictly increasing and
-   equal as a set to the templates of the key's spikes; nan_idx = the increasing ids of [0, max] without spikes *)
-Theorem C08_provenance_checker_sound : forall (st sc : list Z) (omm : list (Z * list Z)) (onan : list Z),
-  (mm_b st sc omm = true -> MM_Obs_Spec st sc omm) /\ (nan_b sc onan = true -> Nan_Obs_Spec sc onan).
-Proof. intros. split; [apply mm_b_sound|apply nan_b_sound]. Qed.
+   equal as a set to the templates of the key's spikes; nan_idx = the increasing ids of [0, max] without spikes;
+   and (clause 22 in the identity branch, n = n_templates) nan_idx = the increasing ids of range(n) without spikes *)
+Theorem C08_provenance_checker_sound : forall (st sc : list Z) (omm : list (Z * list Z)) (onan : list Z) (n : Z),
+  (mm_b st sc omm = true -> MM_Obs_Spec st sc omm) /\ (nan_b sc onan = true -> Nan_Obs_Spec sc onan) /\
+  (nan_n_b n sc onan = true -> NanIdx_Spec n sc onan).
+Proof. intros. split; [apply mm_b_sound|split; [apply nan_b_sound|apply nan_n_b_sound]]. Qed.
 Print Assumptions C08_provenance_checker_sound.
 
 (* the boolean checkers used by the correspondence decide the declarative notions *)
@@ -197,5 +219,12 @@ Example C08_ex_mean_fn : exists m, mean_waveforms ex_d 1 true = Some m /\ mw_den
 Proof. eexists. split; [vm_compute; reflexivity|]. split; reflexivity. Qed.
 Example C08_ex_identity :
   let d := mkds [0; 1; 1] [0; 1; 1] (d_tmpl ex_d) (d_px ex_d) (d_py ex_d) (d_shanks ex_d) (d_wmi ex_d) in
-  exists m, load d = Some m /\ l_ncl m = 3 /\ length (l_data m) = 3%nat.   (* template 2 has no spike *)
+  exists m, load d = Some m /\ l_ncl m = 3 /\ length (l_data m) = 3%nat /\ l_nan m = [2].   (* template 2 has no spike *)
+Proof. eexists. split; [vm_compute; reflexivity|]. repeat split; reflexivity. Qed.
+Example C08_ex_identity_start_middle :      (* 5 templates (the data of ex_d repeated), spikes on 1 and 3 only *)
+  let d := mkds [1; 3; 3] [1; 3; 3] (d_tmpl ex_d ++ firstn 2 (d_tmpl ex_d)) (d_px ex_d) (d_py ex_d) (d_shanks ex_d) (d_wmi ex_d) in
+  exists m, load d = Some m /\ l_ncl m = 5 /\ l_nan m = [0; 2; 4] /\ nan_n_b 5 (d_sc d) [0; 2; 4] = true /\
+            nan_n_b 5 (d_sc d) [] = false.
+Proof. eexists. split; [vm_compute; reflexivity|]. repeat split; reflexivity. Qed.
+Example C08_ex_nan_curated : exists m, load ex_d = Some m /\ l_nan m = [2; 4] /\ l_ncl m = 6.
 Proof. eexists. split; [vm_compute; reflexivity|]. split; reflexivity. Qed.
